@@ -234,3 +234,38 @@ Theorem C18_http_no_routing_reason : forall (uuid_of : Params.str -> option nat)
 Proof. exact HttpProofs.http_route_no_routing. Qed.
 Print Assumptions C18_http_no_routing_reason.
 
+
+(* /v2/accessibility WITHOUT http_access_extra (Proofs/HttpAccess.v): forward accessibility terminates on well-formed
+   data for every first-waiting cap and with zero-duration hops (LoadedLoops.count_transfers_fwd_terminates_mono) *)
+From TrV Require Proofs.HttpAccess.
+
+Theorem C18_http_access_classification_full : forall (uuid_of : Params.str -> option nat), forall sv status kvs acc egr,
+  wf_data_b (sv_data sv) = true -> cache_inv (sv_data sv) (sv_cache sv) ->
+  http_domain uuid_of (sv_data sv) EAccess kvs acc egr ->
+  let d := sv_data sv in
+  let resp := fst (http_serve uuid_of sv status EAccess kvs acc egr) in
+  (status <> 0%nat /\ resp = HttpR 200 (HDataError status)) \/
+  (status = 0%nat /\ (forall x, parse uuid_of d EAccess kvs <> POk x) /\
+   exists code, resp = HttpR 400 (HQueryError code) /\
+                access_defect (resolve uuid_of d) (services_of d) (fun _ _ => false) kvs code) \/
+  (status = 0%nat /\
+   exists c sid s, parse uuid_of d EAccess kvs = POk (c, false) /\ cm_scen c = Some sid /\ find_scenario d sid = Some s /\
+     let p := params_with sid c in
+     let rows := if q_fwd p then acc else egr in
+     HttpAccess.access_dom_wf d s p rows /\
+     exists o, o = access_answer d s p rows /\ is_bad o = false /\
+       (pos_hops_b d = true -> (q_fwd p = true -> q_maxfw p <= 0) ->
+        access_dom d s p rows /\ (if q_fwd p then C08_of d s p rows o else C09_of d s p rows o)) /\
+       ((exists l total, o = Ok (l, total) /\
+           resp = HttpR 200 (HAccess (map (render_node (q_fwd p)) l) total (echo_of_params p))) \/
+        (exists reason, o = NoRouting reason /\
+           resp = HttpR 200 (HNoRouting (access_reason_text reason) (echo_of_params p))))).
+Proof. exact HttpAccess.http_access_classification_full. Qed.
+Print Assumptions C18_http_access_classification_full.
+
+Theorem C18_http_access_never_bad : forall (uuid_of : Params.str -> option nat), forall sv status kvs acc egr,
+  wf_data_b (sv_data sv) = true -> cache_inv (sv_data sv) (sv_cache sv) ->
+  http_domain uuid_of (sv_data sv) EAccess kvs acc egr ->
+  is_hbad (fst (http_serve uuid_of sv status EAccess kvs acc egr)) = false.
+Proof. exact HttpAccess.http_access_never_bad. Qed.
+Print Assumptions C18_http_access_never_bad.
